@@ -67,6 +67,8 @@ def make_pairs(rng, count):
             crafted = [x / rng.choice([2, 4, 8]) for x in u]
             k = rng.choice([0, 0, Fraction(1, 8), Fraction(1, 4)])
             loc = rng.choice(["PENINSULA", loc])
+        if crafted is None:
+            epflow.tiny_use(rng, b, 0.1)      # the property has no floor on the values
         user = {}
         base_text = "\n".join(line_of(kd, kw) for kd, kw in b.lines) + "\n"
         evals = [(float(k), float(area), False), (float(k), float(area), True)]
